@@ -160,7 +160,10 @@ def _job_histories(args):
 
 def junk_pool(rng: random.Random, gen) -> list[tuple[str, bytes, int]]:
     out = [("junk:empty1", b"\x00", 0), ("junk:ascii", b"hello world", 0), ("junk:p1ish", b"1-0:1.8.0(5", 0), ("junk:p1ish2", b"1.0(5)xyz", 0),
-           ("junk:p1ok", b"1-0:1.8.0(00001.5*kWh)\r\n", 4), ("junk:inf", b"1.8.0(inf*kW)", 0), ("junk:paren", b"a*(", 0)]
+           ("junk:p1ok", b"1-0:1.8.0(00001.5*kWh)\r\n", 4), ("junk:inf", b"1.8.0(inf*kW)", 0), ("junk:paren", b"a*(", 0),
+           # a P1 block the P1 decoder accepts with an EMPTY dictionary (only multi-valued data sets)
+           ("p1:multivalued_only", b"1-0:99.97.0(2)(0-0:96.7.19)(170520130938S)(0000005627*s)\r\n", 4),
+           ("p1:multivalued_only2", b"0-0:96.7.19(1)(2)\r\n1-0:99.97.0(0)(0-0:96.7.19)\r\n", 4)]
     for i in range(6):
         out.append((f"junk:rand{i}", bytes(rng.randrange(256) for _ in range(rng.choice([1, 5, 20, 80]))), 0))
     for name, b, _ in gen[::3]:
@@ -393,7 +396,7 @@ def run_c15(chk: Check) -> int:
         items.append(("rand", bytes(rng.randrange(256) for _ in range(rng.choice([1, 2, 8, 30, 100, 300])))))
     for _ in range(300 if quick else 3000):
         items.append(("ascii", bytes(rng.choice(b"()*.-:0123456789aAkWhinf e+\r\n") for _ in range(rng.randint(1, 60)))))
-    for s in (b"1.8.0(inf*kW)", b"1.8.0(nan*kW)", b"1.8.0(1e999*kWh)", b"1.0(5", b"1.0(5)xyz", b"1.0(5)x)", b"a*(", b"(" * 500, b")" * 500,
+    for s in (b"1-0:99.97.0(2)(0-0:96.7.19)(170520130938S)(0000005627*s)\r\n", b"1.8.0(inf*kW)", b"1.8.0(nan*kW)", b"1.8.0(1e999*kWh)", b"1.0(5", b"1.0(5)xyz", b"1.0(5)x)", b"a*(", b"(" * 500, b")" * 500,
               b"1.8.0(" + b"9" * 5000 + b"*kWh)", b"1.8.0(1)" * 800, b"a(" * 700, b"1.0.0(999999999999)", b"1.0.0(21)", b"0-0:1.0.0(2101061607)"):
         items.append(("crafted", s))
     for n in (200, 800, 3200):   # length sweep for the step-count clause
